@@ -15,6 +15,7 @@
 //                                                     "init=0 out=<hex>" | "init=<ret>"
 //   mblock <reuse> <fid|delta> <param> <hex> <cut,..> -> lzma_stream_encoder, LZMA_FULL_FLUSH at every cut (one Block per piece), LZMA_FINISH;
 //                                                     "rt=<1|0> blocks=<filtered bytes of block 1>,<block 2>,..." (fresh stream decoder for rt)
+//   params                                         -> "<8 sizes> <8 sizes>": lzma_simple_coder buffer size per filter, encoder / decoder
 //   dirty <fid|delta> <enc> <param> <hex>          -> leaves both persistent objects in the middle of a stream over <hex>; prints "ok"
 // C only (property oracles evaluated on the implementation itself):
 //   rt <fid> <next> <start_offset> <seed> <hex>    -> "1" iff sliced encode == single-call encode, and sliced decode of it == input
@@ -584,6 +585,18 @@ int main(void)
 			if (l.tok[1][0] == '1') h15_delta_encode_in_place(&st, p, n); else h15_delta_decode_buffer(&st, p, n);
 			hp_put_hex(p, n); printf("\n");
 			free(p);
+		} else if (!strcmp(op, "params") && l.ntok == 1) {
+			// size of lzma_simple_coder.buffer[] per filter, encoder list then decoder list (for the model's `setalloc`)
+			for (int enc = 1; enc >= 0; --enc) {
+				for (int fid = 0; fid < H15_NFILTERS; ++fid) {
+					coder_t c;
+					size_t a = 0;
+					if (coder_init(&c, fid, enc, 0, 0) == LZMA_OK) a = h15_allocated(&c.next);
+					coder_end(&c);
+					printf("%s%zu", fid ? "," : "", a);
+				}
+				printf(enc ? " " : "\n");
+			}
 		} else if (!strcmp(op, "rt") && l.ntok == 6) {
 			const int fid = fid_of(l.tok[1]);
 			if (fid < 0) { printf("bad-op\n"); continue; }
